@@ -117,12 +117,12 @@ def execute(ctx, FST, src, params, schedule, label):
                 return applied
             if not leaving:
                 if id(g) in entered and not sent_true:
-                    if entered[id(g)] != type(g.a).__name__:
-                        ctx.violation('norm-collapse-reuses-parent-fst-object-which-is-entered-again', f'{label} {params}: the FST object first entered as {entered[id(g)]} was entered again as {g!r} after {log} (normalisation replaced the parent by its single remaining operand, reusing the parent\'s FST object)', case)
+                    if entered[id(g)][1] is not g.a:   # same FST object, ANOTHER AST node: the object was reused for the operand that replaced its collapsed parent
+                        ctx.violation('norm-collapse-reuses-parent-fst-object-which-is-entered-again', f'{label} {params}: the FST object first entered as {entered[id(g)][0]} was entered again as {g!r} after {log} (normalisation replaced the parent by its single remaining operand, reusing the parent\'s FST object)', case)
                     else:
                         ctx.violation('walk-enters-node-twice', f'{label} {params}: {g!r} entered twice after {log}', case)
                     return applied
-                entered[id(g)] = type(g.a).__name__
+                entered[id(g)] = (type(g.a).__name__, g.a)   # strong reference to the AST node: identity, not id()
             if expect_child_of is not None:
                 p = g
                 ok = False
@@ -170,7 +170,7 @@ def execute(ctx, FST, src, params, schedule, label):
                             ctx.cell('replace_sendT', 'cur', on, back, all_)
                             if g.a is not None and all_ in (True, 'Name') and (leaving or on == 'enter'):
                                 want_ids = {id(x) for x in ast.walk(g.a) if x is not g.a and (all_ is True or isinstance(x, ast.Name))}
-                                expect_rewalk = (g, want_ids, set()) if leaving else None
+                                expect_rewalk = (g, want_ids, set()) if leaving and len(schedule) == 1 else None   # judged only when nothing else disturbs the walk (documented: other operations may cause new nodes not to be walked)
                                 if not leaving:
                                     expect_child_of = g
                         except Exception as e:
